@@ -3,6 +3,7 @@
 import builtins
 import collections.abc as cabc
 import inspect
+import re
 import sys
 import types
 
@@ -257,7 +258,14 @@ class Execer:
             if logical_input:
                 beg_spaces = starting_whitespace(input)
                 input = input[len(beg_spaces) :]
-            max_retries = len(input.splitlines()) * 2 + 10
+            # every retry wraps one more command segment, so the budget has to grow
+            # with the number of segments - chain operators included - not only
+            # with the number of lines (a one-line chain of a dozen commands is
+            # otherwise rejected as a syntax error)
+            n_segments = len(input.splitlines()) + len(
+                re.findall(r"&&|\|\||;|\band\b|\bor\b", input)
+            )
+            max_retries = n_segments * 2 + 10
             while not parsed:
                 if max_retries <= 0:
                     # Prevent hanging e.g. #5839
